@@ -153,7 +153,11 @@ Definition mstep5 (p : params) (s : s5) (o : op) (ob : robs) : option s5 :=
       match lrun5 p (s2, [FK ms2]) (ro_log ob) with
       | Some (s3, [FK [MRet r x]]) =>
           if oz_eqb (ro_ret ob) r && (ro_exc ob =? x)
-          then Some (match o with Process => upd s3 (att s3) (pend s3) [] | _ => s3 end)
+          (* after a frame that returned, only marks that are still there can fail a later one *)
+          then Some (match o with
+                     | Process => upd s3 (att s3) (pend s3) (filter (fun e => zmem e (pend s3)) (bad s3))
+                     | _ => s3
+                     end)
           else None
       | Some (s3, [FK [MRelease _; MRet r x]]) =>
           if oz_eqb (ro_ret ob) r && (ro_exc ob =? x) then Some s3 else None
